@@ -48,8 +48,8 @@ CLAIMS = {
     "C06": ("proof",
             "Soundness: time-window gate and capacity gate accept only legs whose step simulation is feasible (complete Kani proofs, see C01). Completeness: on the exact (integer-valued) domain a feasible leg in a consistent tour "
             "is accepted mid-tour/closed-tour, and at the open end under the stricter premise the code implements; the open-end converse as the property states it is KNOWN FINDING F5. "
-            "Capacity gate: everything fits => accepted (complete). Plumbing: analyze_insertion_in_route_leg tries every place of the job and keeps the cheapest feasible one (bounded, U06a); exhaustive leg selection offers every leg from `skip` on once, in order, and the stochastic branch hands exactly those legs to its sampler (bounded, U06b); eval_single/MultiContext keep the better alternative (Verus, U06c/U06d)." + GLUE,
-            "Trusted: as C01; of the evaluator plumbing analyze_insertion_in_route_leg (U06a), LegSelection (U06b), eval_single (U06c) and MultiContext (U06d) are under contract, eval_multi's permutation loop and sample_search are NOT; machine floats: converse demanded on integer-valued inputs only.",
+            "Capacity gate: everything fits => accepted (complete). Plumbing: analyze_insertion_in_route_leg tries every place of the job and keeps the cheapest feasible one (bounded, U06a); exhaustive leg selection offers every leg from `skip` on once, in order, and the stochastic branch hands exactly those legs to its sampler (bounded, U06b); eval_single/MultiContext keep the better alternative (Verus, U06c/U06d); the route-level time pre-check evaluate_job refuses a job only when some task has no time span overlapping the shift (bounded, U01j); eval_multi prices each later task of a multi-task job against a tour holding the earlier tasks where, and at the place, the result reports them (bounded, U20e)." + GLUE,
+            "Trusted: as C01; of the evaluator plumbing analyze_insertion_in_route_leg (U06a), LegSelection (U06b), eval_single (U06c), MultiContext (U06d), evaluate_job (U01j) and eval_multi for one permitted order on an empty tour (U20e) are under contract, sample_search and eval_multi's repeated passes are NOT; machine floats: converse demanded on integer-valued inputs only.",
             TECH_K, "§3 C06"),
     "C07": ("model_checking",
             "Iterative::run executes exactly min(limit, k) generations for MaxGeneration(limit) and a quota that fires at an arbitrary poll index k, returns Ok with the ranked prefix (bounded limit <= 3, k <= 4); "
@@ -94,6 +94,13 @@ CLAIMS = {
             "Verus, any matrix size and profile count; time-dependent look-ups (value at a matrix timestamp, first/last outside the span, linear interpolation / left value in between) on a provider state built directly (Kani, bounded <= 3 matrices, U16b); TimeAwareMatrixTransportCost::new establishes that state - matrices in chronological order, timestamp list in the same order - whatever the supply order, and rejects missing timestamps / single-matrix profiles (Kani, bounded: 2 matrices, U16c).",
             "Floats uninterpreted in the Verus unit (operation identity, not numerics); the time-aware constructor only for 2 matrices over a MatrixData stub without the value vectors; the other constructors' rejections, fleet_reader, haversine are NOT under contract.",
             TECH_V, "§3 C16"),
+    "C17": ("model_checking",
+            "Density clustering create_clusters (dbscan.rs, verbatim): clusters pairwise disjoint, each grown from a core point, members density-reachable from it, everything density-reachable clustered, no core point unclustered, only input points - "
+            "on every one of the 64 neighbourhood graphs on 4 points for min_points 2 (quick) and 3 (thorough) (U17a). k-medoids (kmedoids.rs, verbatim, with the repository's sequential fold_reduce/map_reduce): "
+            "the result is a partition of all points in which no point is closer to another cluster's medoid than to its own (4 points, k = 2, <= 2 refinement rounds; U17b). "
+            "The Lin-Kernighan search (lkh/*: termination, permutation of the nodes, same start node, cost not above the input) is NOT under contract: CBMC does not finish on it even for a constant 5-node instance (DESIGN §1 P28).",
+            "Bounded Kani harnesses; std hash collections and Vec replaced by stated stand-ins; LKH (a third of the property) is not decided; defect F4 (fixed) was in that part and no check of this family guards it.",
+            TECH_K + " (bounded)", "§9 C17"),
     "C18": ("proof",
             "SlotMachine: one-step contract from any state in the invariant box (shape +1/2 and positive, rate non-decreasing positive finite, variance finite >= 0, mean within hull of old mean and reward up to one ulp, "
             "sampler preconditions met) - complete in the thorough tier (n < 2^40), n < 2^12 in the quick tier; termination estimates in [0,1] (see C07); MinVariation::is_termination updates its window exactly once per generation in every phase and fires iff allowed and the window says so (bounded, U18d); random_argmax returns a maximal entry for every non-empty list whatever the draws (bounded <= 4); relative distance / distance reward finite, signed and bounded by the priority amplifier (bounded) - the documented [0,6] reward range is KNOWN FINDING F6.",
@@ -110,7 +117,7 @@ CLAIMS = {
             "Trusted: Kani/CBMC; array-backed map look-alike; network training (train_on_data, create_network, Network::new, grow_nodes, adjust_weights, distribute_error, mse) is replaced by recorders or not under contract at all: weights/error finiteness and node capacity are NOT decided.",
             TECH_K + " (U19a loop-free, complete; U19b/U19c bounded)", "§3 C19"),
     "C20": ("model_checking",
-            "Distance objective: estimate_leg's quoted delta equals total_distance(after) - total_distance(before) exactly, for empty tour (vehicle ending at a different location than it starts), first/last/open-end leg (bounded <= 1 existing job activity, integer-valued matrix); unassigned-jobs and number-of-tours objectives: quote == change (bounded); total value of served jobs incl. the constructor's estimate closure: quote == change, fitness == minus the total (bounded, U20d); combined cost objective (estimate_route + estimate_activity, TransportCost::cost, ActivityCost::cost vs get_total_cost after update_route_schedule) with equal per-time rates and no waiting: quote == change (bounded <= 1 existing job activity, asymmetric matrix, U20c); lemma L20 (telescoping, any tour length).",
+            "Distance objective: estimate_leg's quoted delta equals total_distance(after) - total_distance(before) exactly, for empty tour (vehicle ending at a different location than it starts), first/last/open-end leg (bounded <= 1 existing job activity, integer-valued matrix); unassigned-jobs and number-of-tours objectives: quote == change (bounded); total value of served jobs incl. the constructor's estimate closure: quote == change, fitness == minus the total (bounded, U20d); combined cost objective (estimate_route + estimate_activity, TransportCost::cost, ActivityCost::cost vs get_total_cost after update_route_schedule) with equal per-time rates and no waiting: quote == change (bounded <= 1 existing job activity, asymmetric matrix, U20c); multi-task jobs: eval_multi's quote is the route cost plus the tasks' quotes, each task priced against the tour with the earlier tasks at their reported places (bounded, U20e); lemma L20 (telescoping, any tour length).",
             "Bounded Kani harnesses; the waiting-time correction of CostObjective and the non-additive objectives (work balance, compactness, fast service) are not under contract.",
             TECH_K + " (bounded)", "§3 C20"),
 }
